@@ -1806,6 +1806,13 @@ class Desugar(ast.NodeTransformer):
                         # if v is not None: USE   ->  the use happens where the match is found
                         inner[1:1] = nvis.body
                         consumed = True
+                    elif nvis.orelse and isinstance(nvis.test, ast.Compare) and isinstance(nvis.test.ops[0], (ast.Is, ast.IsNot)):
+                        # if v is None: MISSING else: USE   ->   USE where the match is found, MISSING in the loop's else   (USE has no break/continue of its own)
+                        missing, use = (nvis.body, nvis.orelse) if isinstance(nvis.test.ops[0], ast.Is) else (nvis.orelse, nvis.body)
+                        if not any(isinstance(x, (ast.Break, ast.Continue)) for b_ in use for x in ast.walk(b_)) and isinstance(ge.elt, ast.Name):
+                            inner[1:1] = use
+                            loop.orelse = missing
+                            consumed = True
                 if not consumed:
                     init = ast.Assign(targets=[ast.Name(id=v, ctx=ast.Store())], value=ast.Constant(value=None))
                     out.append(ast.copy_location(init, st))
